@@ -147,7 +147,7 @@ def kin_cases(ctx, n_models):
 # ----------------------------------------------------------------------------- (c) pipelines
 
 
-def grad_case(rng, pipeline_name, n_steps, singular, opts=None, active_limits=False):
+def grad_case(rng, pipeline_name, n_steps, singular, opts=None, active_limits=False, aligned=False):
   """returns None if ok else failure dict"""
   _setup()
   import importlib
@@ -189,6 +189,14 @@ def grad_case(rng, pipeline_name, n_steps, singular, opts=None, active_limits=Fa
       w = 7 if t == 'f' else int(t)
       if t != 'f':
         q[pos:pos + w] = 0.0
+        if aligned:
+          # axis-aligned rotations: joint coordinates at exact multiples of pi/2 (gimbal configurations of stacks)
+          q[pos:pos + w] = rng.choice([0.0, np.pi / 2, -np.pi / 2, np.pi], size=w)
+          if w >= 2:
+            q[pos + 1] = rng.choice([np.pi / 2, -np.pi / 2])      # the gimbal configuration of the stack
+      elif aligned:
+        h = np.sqrt(0.5)
+        q[pos + 3:pos + 7] = np.array([[1, 0, 0, 0], [h, h, 0, 0], [h, 0, h, 0], [h, 0, 0, -h], [0, 1, 0, 0], [0, 0, 0, 1]][int(rng.integers(0, 6))], dtype=float)
       pos += w
   nq, nv = q.size, qd.size
   wts = rng.uniform(0.5, 1.5, size=4)
@@ -201,8 +209,10 @@ def grad_case(rng, pipeline_name, n_steps, singular, opts=None, active_limits=Fa
   z0 = jp.asarray(np.concatenate([q, qd, ctrl]))
   g = np.asarray(jax.jit(jax.grad(loss))(z0))
   base = dict(xml=xml, q=q.tolist(), qd=qd.tolist(), ctrl=ctrl.tolist(), pipeline=pipeline_name, n_steps=n_steps,
-              singular=singular, active_limits=active_limits, weights=wts.tolist(), types=mt['link_types'])
+              singular=singular, active_limits=active_limits, aligned=aligned, weights=wts.tolist(), types=mt['link_types'])
   if not np.all(np.isfinite(g)):
+    if not np.isfinite(float(jax.jit(loss)(z0))):
+      return None      # the forward value itself is not finite (e.g. singular mass matrix at gimbal lock without armature): not a gradient matter
     return dict(key=f'grad-nonfinite:{pipeline_name}', what=f'jax.grad through {n_steps} {pipeline_name} steps is not finite', grad=g.tolist(), **base)
   if singular:
     return None       # finiteness only at the singular inputs
@@ -237,6 +247,14 @@ def grad_cases(ctx, n_per_pipeline, seed_offset=0):
       n += 1
       if r is not None:
         fails.append(r)
+    # axis-aligned rotations: stacked hinges at exact multiples of pi/2, roots at axis-aligned orientations, at rest
+    for k in range(n_per_pipeline * 3):
+      r = grad_case(rng, name, n_steps=1, singular=True, aligned=True,
+                    opts=dict(n_links=(1, 2) if k % 3 == 0 else (1, 1), stack=(2, 3), kinds='hinge',
+                              roots='mixed' if k % 3 == 0 else 'world', armature=1.0))
+      n += 1
+      if r is not None:
+        fails.append(r)
     # joint limits active, away from the switching point: the derivative of the limit/constraint forces is compared too
     # (the generalized pipeline solves for the constraint force iteratively: three cases there)
     for k in range(n_per_pipeline * (3 if name == 'generalized' else 1)):
@@ -256,7 +274,7 @@ def correspond(ctx):
       evaluations=n_leaf + n_kin + n_g, distinct_nontrivial=n_leaf + n_kin,
       rule='(a) 8 leaf functions x random points + singular points (zero vectors, |x|=1, x=1-1e-7): jax.jvp vs dual-number Lean model '
            '(1e-8); (b) generator models x {random state, q=0 & qd=0}: jax.jvp(kinematics.forward) vs Kin.forward over Dual Float; '
-           '(c) jax.grad through init + 1-2 steps of generalized/spring/positional w.r.t. (q, qd, ctrl): finite (also at q=0, qd=0) and '
+           '(c) jax.grad through init + 1-2 steps of generalized/spring/positional w.r.t. (q, qd, ctrl): finite (also at q=0, qd=0, and at axis-aligned joint angles k*pi/2 of hinge stacks / axis-aligned root orientations) and '
            'equal to central differences (regular inputs without limits; and inputs with joint limits ACTIVE 0.05-0.3 beyond the range, away from switching)',
       samples=[dict(leaf='normalize3', x=[0, 0, 0]), dict(kin='generator model, q=0, qd=0')],
       disagreements=dis_l + dis_k, spec_failures=fails_l + fails_k + fails_g,
